@@ -404,6 +404,22 @@ impl World {
                     break;
                 }
             }
+            // the smart query is served by the contract's current code and shows its storage
+            if let Some(code) = self.model.codes.get(&c.code_id) {
+                let got: Result<(u32, Vec<(Binary, Binary)>), _> = self.app.wrap().query_wasm_smart(addr.clone(), &PuppetQuery::Dump {});
+                rep.bump("e1/accessors/smart_queries_compared");
+                match got {
+                    Ok((tag, dump)) => {
+                        let dump: Vec<(Vec<u8>, Vec<u8>)> = dump.into_iter().map(|(k, v)| (k.to_vec(), v.to_vec())).collect();
+                        if tag != code.code_tag {
+                            d.push(Disc { props: vec!["C10", "C12"], sig: "smart-query-served-by-another-code".into(), detail: format!("contract {}: query answered by code tag {}, recorded code {} has tag {}", addr, tag, c.code_id, code.code_tag) });
+                        } else if dump != want {
+                            d.push(Disc { props: vec!["C10", "C08"], sig: "smart-query-shows-other-storage".into(), detail: format!("contract {}: {} entries vs model {}", addr, dump.len(), want.len()) });
+                        }
+                    }
+                    Err(e) => d.push(Disc { props: vec!["C10"], sig: "smart-query-failed".into(), detail: format!("contract {}: {}", addr, e) }),
+                }
+            }
             // a key the contract never wrote
             let absent = b"\x00never-written".to_vec();
             if !c.storage.contains_key(&absent) {
@@ -498,6 +514,7 @@ impl World {
         let mut discs: Vec<Disc> = vec![];
         let before = rawstate::dump(self.app.storage());
         let _ = take_trace();
+        let _ = take_reply_gas(); // whatever other instances of this thread left behind
         rep.evaluations += 1;
         match op {
             Top::StoreCode { kind, creator, id } => {
@@ -642,7 +659,7 @@ impl World {
                         Ok(Err(_)) => "err".to_string(),
                         Err(_) => "panic".to_string(),
                     };
-                    t.push(format!("{} {} trace={:?}", kind, shown, real_trace));
+                    t.push(format!("{} {} trace={:?} reply_gas={:?}", kind, shown, real_trace, take_reply_gas()));
                 }
                 let got = match got {
                     Ok(g) => g,
@@ -757,6 +774,15 @@ impl World {
                     rep.bump("e1/footprint/checks");
                     if outside(&before) != outside(&after) {
                         discs.push(Disc { props: vec!["C08"], sig: "transaction-changed-raw-keys-outside-bank-and-wasm".into(), detail: format!("{}: {:?}", short_op(op), rawstate::diff(&outside(&before), &outside(&after))) });
+                    }
+                }
+                // a transaction in which a malformed response occurs: its handling (rejection, rollback, catching like
+                // any other contract error) is C13's subject
+                if info.out.failures.iter().any(|f| f.0 == Why::BadAttribute) {
+                    for d in discs.iter_mut() {
+                        if !d.props.contains(&"C13") {
+                            d.props.push("C13");
+                        }
                     }
                 }
                 // ordering / per-message responses of execute_multi are part of C01
